@@ -245,6 +245,19 @@ theorem phi_loop_step {P : Params} {A : Assembler} {script : List Item} {s s' : 
         · cases hs
       · cases hs
     · cases hs
+  case reapFault =>
+    unfold stepReapFault at hs
+    split at hs
+    · next c hpc =>
+      split at hs
+      · next x rest e hpend hitem =>
+        split at hs
+        · next hcl =>
+          injection hs with hs; subst hs
+          simp only [phi, hpc, hpend, List.length_cons, Nat.succ_mul] at hcl ⊢; omega
+        · cases hs
+      · cases hs
+    · cases hs
   case reapLate =>
     unfold stepReapLate at hs
     split at hs
